@@ -53,7 +53,7 @@ def main():
             also = sorted(mention.get(fid, set()) - {e.get("property", pid)})
             if fid in have:
                 h = have[fid]
-                merged = sorted(set(h.get("also") or []) | set(also) | ({pid} if h.get("property") != pid else set()))
+                merged = sorted((set(h.get("also") or []) | set(also) | {pid}) - {h.get("property")})
                 if merged != (h.get("also") or []):
                     h["also"] = merged
                     print(f"{fid}: already recorded; also -> {merged}")
